@@ -376,7 +376,10 @@ class Interp(object):
         if e.k == "UnaryOperator" and e.v == "*":
             out = []
             for p, s1 in self.ev(e.kids[0], s):
-                out.append(((("slotl", p[1], p[2]) if isinstance(p, tuple) and p and p[0] == "ptr" else None), s1))
+                if isinstance(p, tuple) and p and p[0] == "addr":
+                    out.append((("varat", p[1], p[2]), s1))      # a caller's local, through an out-parameter
+                else:
+                    out.append(((("slotl", p[1], p[2]) if isinstance(p, tuple) and p and p[0] == "ptr" else None), s1))
             return out
         return [(None, s)]
 
@@ -385,6 +388,9 @@ class Interp(object):
             return
         if loc[0] == "var":
             s.set(loc[1], v)
+        elif loc[0] == "varat":
+            if loc[2] < len(s.env):
+                s.env[loc[2]][loc[1]] = v
         elif loc[0] == "field":
             s.fields[loc[1]] = v
             s.nstores += 1
@@ -436,7 +442,7 @@ class Interp(object):
             if x is not None and x.k == "DeclRefExpr":
                 if x.n == "_Py_NoneStruct":
                     return [(("none",), s)]
-                return [(("addr", x.n), s)]
+                return [(("addr", x.n, len(s.env) - 1), s)]      # the frame the local lives in
             out = []
             for loc, s1 in self.lval(x, s):
                 if loc is not None and loc[0] == "slotl":
@@ -445,7 +451,14 @@ class Interp(object):
                     out.append((("opaque", frozenset()), s1))
             return out
         if op == "*":
-            return [(self.deref(p), s1) for p, s1 in self.ev(e.kids[0], s)]
+            out = []
+            for p, s1 in self.ev(e.kids[0], s):
+                if isinstance(p, tuple) and p and p[0] == "addr":
+                    v = s1.env[p[2]].get(p[1]) if p[2] < len(s1.env) else None
+                    out.append((v if v is not None else ("opaque", frozenset()), s1))
+                else:
+                    out.append((self.deref(p), s1))
+            return out
         if op == "!":
             return [(K(0 if t else 1), s1) for t, s1 in self.branch(e.kids[0], s)]
         out = []
@@ -704,7 +717,7 @@ class Interp(object):
         if name in ("PyArg_ParseTuple", "PyArg_UnpackTuple") and len(vals) >= 2:
             return self.parse(name, vals, s)
         if name == "PyVar_Assign" and len(vals) == 2 and vals[0][0] == "addr":
-            s.set(vals[0][1], vals[1])
+            s.env[vals[0][2]][vals[0][1]] = vals[1]
             return [(K(0), s)]
         if name in ("memcpy", "memmove") and len(vals) >= 2:
             d = vals[0]
@@ -794,7 +807,7 @@ class Interp(object):
                 s2.assume["arity %s" % show(src)] = (n, frozenset(), "%d element(s)" % n)
             for i, o in enumerate(outs):
                 if i < n and isinstance(o, tuple) and o and o[0] == "addr":
-                    s2.set(o[1], ("item", src, K(i)))
+                    s2.env[o[2]][o[1]] = ("item", src, K(i))
             s2.arity = n
             res.append((K(1), s2))
         # failure
